@@ -263,6 +263,30 @@ class StmtMixin(object):
             return [st.setvar(target.id, val)]
         if isinstance(target, (ast.Tuple, ast.List)):
             items = self.unpack(st, val, len(target.elts), node)
+            if items is None and val.ty == VAL:
+                # a, b = <dynamic value>: a list of exactly that length, else ValueError / TypeError
+                n = len(target.elts)
+                out = []
+                cases, rest = self.val_split(st, val, ['list'])
+                for kind, s2, c in cases:
+                    l = self.vlist(s2, Val.vl(c.z))
+                    t, f = self.branch(s2, l.t[1] == n)
+                    if t is not None:
+                        states = [t]
+                        for k, tg in enumerate(target.elts):
+                            new = []
+                            for x in states:
+                                if isinstance(x, Res):
+                                    new.append(x)
+                                else:
+                                    new += self.assign_to(x, tg, self.L_at(l, z3.IntVal(k)), node)
+                            states = new
+                        out += states
+                    if f is not None:
+                        out.append(Res(f, None, Exc('ValueError', origin=getattr(node, 'lineno', None))))
+                if rest is not None:
+                    out.append(Res(rest, None, Exc('TypeError', origin=getattr(node, 'lineno', None))))
+                return out
             if items is None:
                 if val.ty == VAL or isinstance(val.ty, TList):
                     self.oos('unpacking of a dynamic sequence', node)
@@ -601,6 +625,8 @@ class StmtMixin(object):
                         mods['all'] = mods['all'] or cm['all']
             if sc.has_yield:
                 mods['all'] = True
+        if sc.has_yield:
+            st = st.tag('yield@loop')     # an arbitrary iteration may already have suspended
         return self.apply_havoc(st, mods)
 
     def mods_of_contract_conservative(self, c):
